@@ -3,6 +3,7 @@ import GenlmModel.Proofs.Subst
 import GenlmModel.Proofs.Regex
 import GenlmModel.Proofs.Mask
 import GenlmModel.Proofs.Wfsa2
+import GenlmModel.Proofs.EndToEndLark
 /-! # C19 — the oracles of the substitution semantics are verified; conversions by C17 -/
 namespace Genlm.Props.C19
 alias terminal_matcher_decides_denotation := Genlm.Re.accepts_iff
@@ -14,4 +15,20 @@ of a terminal sequence derivable in the rule grammar -/
 alias substitution_spec := Genlm.substitution_spec
 /-- … with `%ignore`: each terminal optionally preceded by one match of an ignored terminal -/
 alias substitution_ignore_spec := Genlm.substitution_ignore_spec
+
+/-! ## END TO END (the FSM of each terminal given, interegular being third party): regex FSM → WFSA → grammar → assembled
+character / byte grammar -/
+/-- per-terminal grammar derives exactly the strings its FSM accepts -/
+alias terminal_grammar_accepts_iff := Genlm.terminal_grammar_accepts_iff
+alias terminal_grammar_accepts_regex := Genlm.terminal_grammar_accepts_regex
+/-- THE character-level theorem: s is derived iff s = w₁…w_k with each w_i a match of terminal t_i, optionally preceded by one match
+of an ignored terminal, and t₁…t_k derivable in the Lark rule grammar -/
+alias char_cfg_accepts_iff := Genlm.char_cfg_accepts_iff
+alias char_cfg_accepts_iff_noignore := Genlm.char_cfg_accepts_iff_noignore
+/-- THE byte-level theorem: exactly the UTF-8 encodings of those strings (UTF-8 proved prefix-free from Lean core), never a
+truncated or mixed encoding -/
+alias byte_cfg_accepts_iff := Genlm.byte_cfg_accepts_iff
+alias byte_cfg_is_encoding_of_char_cfg := Genlm.byte_cfg_iff_encoding_of_char_cfg
+alias byte_cfg_rejects_non_encoding := Genlm.byte_cfg_rejects_non_encoding
+alias utf8_prefix_free := Genlm.utf8_prefixFree
 end Genlm.Props.C19
